@@ -9,6 +9,14 @@ COMMON_NOTE = ("Trusted base: rustc/cargo 1.80.1, serde/serde_json, syn, python 
                "see DESIGN.md section 4 'Outside' for what the bound leaves open.")
 
 CHECKS = {
+ "C17": dict(
+  text="Bounded exhaustive enumeration of the depth-2 space (thorough: + pairs) x settings {type_mod none/'types', builder, map type}, plus replacement/conversion targets declared with every subset of {FromStr, Display, Default}; for every type the real Type API reports (name, ident, details, has_impl x3, builder) the facts are compared with a syn scan of the same output (properties == fields incl. required flag and type, variants == variants, newtype inner == field, builder() <=> builder item, iter_types() == emitted items, uses_* flags vs crate paths in the tokens) and turned into compiled assertions placed outside the module named by type_mod.",
+  design="DESIGN.md 4/C17", technique="bounded exhaustive enumeration; API-vs-parsed-output comparison and compiled assertions generated from the API's own answers",
+  note="has_impl(Default) is not queried on types that reach themselves through newtype/Box/tuple/array edges (documented unbounded recursion in has_impl). " + COMMON_NOTE),
+ "C18": dict(
+  text="Exhaustive operation sequences on compiled code: for every struct of a menu (1..3 members; member type x state {required, optional, schema default}) with the builder enabled, every subset of setters x every value choice (two convertible values built through from_value::<FieldTy>, one inconvertible raw String where the field type has a fallible TryFrom<String>) followed by try_into(), plus struct -> builder -> struct for every buildable value; Ok <=> all members without default set and all conversions ok, the error names the member, the built value equals from_value of the same object, the round trip is the identity.",
+  design="DESIGN.md 4/C18", technique="exhaustive operation-sequence enumeration executed on compiled generated code against a reference predicate and a differential (builder vs Deserialize) oracle",
+  note="Structs with more than 3 members and values outside the per-type sample sets are not covered. " + COMMON_NOTE),
  "C09": dict(
   text="Exhaustive enumeration of allOf compositions: every ordered pair of a 21-fragment menu (as definition and as member) and every ordered triple of a 10-fragment sub-menu, i.e. every permutation of every unordered pair/triple; each is converted by the real typify-impl, compiled and run on the instance universe of the conjunction; (i) candidates valid under every subschema must be accepted (jsonschema oracle), (ii) acceptance and round-trip vectors must be equal across all permutations of one multiset (differential, no validator), (iii) an order that is rejected or uninhabited next to an inhabited permutation is a violation.",
   design="DESIGN.md 4/C09", technique="exhaustive enumeration of permutations executed on compiled generated code; differential oracle across permutations + jsonschema intersection oracle",
